@@ -357,10 +357,20 @@ where
                 .sqrt();
             let plus = deriv_quotient + sqrt;
             let minus = deriv_quotient - sqrt;
-            let a = if plus.abs() > minus.abs() {
-                order / plus
+            let denominator = if plus.abs() > minus.abs() {
+                plus
             } else {
-                order / minus
+                minus
+            };
+            let a = if denominator.abs() > N::RealField::zero() {
+                order / denominator
+            } else {
+                // p'(z) = p''(z) = 0 (x^n - c at the origin): both denominators vanish and n / 0 would
+                // poison the iterate. Leave the stationary point with a step of size 1 + |z| whose
+                // direction changes with the iteration count.
+                let angle = N::RealField::from_usize(k).unwrap();
+                Complex::<N::RealField>::new(angle.cos(), angle.sin())
+                    * (N::RealField::one() + guess.abs())
             };
             guess -= a;
             k += 1;
